@@ -84,7 +84,7 @@ def _load_entry_point(group, name, use_aliases=False):
     groups = [group, group + '.aliases'] if use_aliases else [group]
     for search_group in groups:
         # first check in runtime plugins registered via register_plugin
-        klass = _RUNTIME_PLUGINS.get(group, {}).get(name)
+        klass = _RUNTIME_PLUGINS.get(search_group, {}).get(name)
         if klass is not None:
             return klass
 
@@ -166,8 +166,11 @@ def register_plugin(plugin_group, name, klass, force=False):
     if base_group not in _DEFAULT_PLUGINS:
         raise PluginGroupNotFound(base_group)
 
-    if len(entry_points(group=plugin_group, name=name)) > 0 and not force:
-        return False
+    if not force:
+        if name in _RUNTIME_PLUGINS.get(plugin_group, {}):
+            return False
+        if len(entry_points(group=plugin_group, name=name)) > 0:
+            return False
 
     if plugin_group not in _RUNTIME_PLUGINS:
         _RUNTIME_PLUGINS[plugin_group] = {}
